@@ -124,10 +124,10 @@ def setRootCounts (cfg : Cfg) (f : Fields) (desc events links spans : Nat) : Fie
   else if cfg.spanCount then setInt f kSpanCount desc
   else f
 
-/-- the root decoration from the live trace's own counters (`send`, `sendTraces`) -/
+/-- the root decoration from the live trace's own (`uint32`) counters (`send`, `sendTraces`) -/
 def traceRootCounts (cfg : Cfg) (spans : List Span) (sp : Span) : Span :=
-  let f := setRootCounts cfg sp.fields (spans.length % two32) (countKind .event spans)
-    (countKind .link spans) (countKind .span spans)
+  let f := setRootCounts cfg sp.fields (spans.length % two32) (countKind .event spans % two32)
+    (countKind .link spans % two32) (countKind .span spans % two32)
   { sp with fields := f }
 
 /-- `mergeTraceAndSpanSampleRates`. -/
@@ -255,7 +255,8 @@ def checkSpan (t : TraceSt) (k : Kind) : Option (Option Rec) × TraceSt :=
 /-- `NewKeptTraceCacheEntry` -/
 def mkRec (rate : Nat) (reason : String) (spans : List Span) : Rec :=
   { rate32 := trunc32 rate, reason := reason, desc := spans.length % two32,
-    events := countKind .event spans, links := countKind .link spans, spans := countKind .span spans }
+    events := countKind .event spans % two32, links := countKind .link spans % two32,
+    spans := countKind .span spans % two32 }
 
 /-- `cuckooSentCache.Record` -/
 def record (t : TraceSt) (rate : Nat) (keep : Bool) (reason : String) (spans : List Span) : TraceSt :=
@@ -268,6 +269,10 @@ def updLastRoot (g : Span → Span) : List Span → List Span
     if rest.any (·.root) then sp :: updLastRoot g rest
     else if sp.root then g sp :: rest else sp :: rest
 
+def lateOut : Option Span → Out
+  | some sp => .late sp
+  | none => .lateDrop
+
 def getT (s : St) (tid : String) : TraceSt := (AList.get s.traces tid).getD {}
 def putT (s : St) (tid : String) (t : TraceSt) : St := { s with traces := AList.put s.traces tid t }
 
@@ -279,7 +284,7 @@ def step (s : St) : Op → St × Out
     | none =>
       match checkSpan t sp.kind with
       | (some r, t') =>
-        (putT s tid t', match fwdLate s.cfg s.host r sp with | some sp' => .late sp' | none => .lateDrop)
+        (putT s tid t', lateOut (fwdLate s.cfg s.host r sp))
       | (none, _) => (putT s tid { t with live := some [sp] }, .buf)
   | .decide tid d =>
     let t := getT s tid
